@@ -95,6 +95,14 @@ type wl struct {
 	ctx        context.Context
 	tag        uint64
 	noInflight bool
+	stuck      bool
+}
+
+func tail(s []string, n int) []string {
+	if len(s) > n {
+		return s[len(s)-n:]
+	}
+	return s
 }
 
 func body(w *run.Worker) {
@@ -113,6 +121,9 @@ func body(w *run.Worker) {
 			w.Sample(map[string]any{"config": cfg.String(), "acStyle": x.ac})
 		}
 		x.runWorkload(r.Range(25, 70), true)
+		if x.stuck {
+			return
+		}
 		x.enumerate(1)
 	})
 }
@@ -337,12 +348,18 @@ func (x *wl) runWorkload(steps int, faults bool) {
 					}
 					if parked {
 						x.w.Count("second_state_writer_parked", 1)
-						x.someOps(r.Range(1, 4))
+						// enough uploads to cycle through the free list
+						x.someOps(r.Range(2, 4+x.cfg.BlockCount()))
 					}
 				}
 				s.Gate.Open(point)
 			}
 			t.Wait()
+			if t.Stuck {
+				x.c.Violation("periodicSyncer:retries-never-succeed", "a sync round did not finish although the virtual clock was advanced through more than 3000 timers: a transient failure (injected sync / state-write / directory failure) is retried forever without succeeding; error log tail: %v", tail(s.ErrLog.Messages(), 3))
+				x.stuck = true
+				return
+			}
 			finishRel()
 		}
 	}
